@@ -352,4 +352,39 @@ def Route.valueR (rnd : Rat → Rat) : Route → Rat
 /-- rounding to integers (downwards): a concrete, non-trivial rounding for examples -/
 def floorRnd (x : Rat) : Rat := (x.floor : Rat)
 
+/-! ### binary64 round-to-nearest-even, executable (normal range; no overflow / subnormals) -/
+
+/-- `⌊log₂ (n / d)⌋` for positive `n`, `d` -/
+def log2Rat (n d : Nat) : Int :=
+  let e0 : Int := (n.log2 : Int) - (d.log2 : Int)
+  -- 2^e0 ≤ n/d may fail by one: n/d < 2^e0 ⇔ n < d * 2^e0
+  let below : Bool := if e0 ≥ 0 then n < d * 2 ^ e0.toNat else n * 2 ^ (-e0).toNat < d
+  if below then e0 - 1 else e0
+
+def pow2 (e : Int) : Rat := if e ≥ 0 then ((2 ^ e.toNat : Nat) : Rat) else 1 / ((2 ^ (-e).toNat : Nat) : Rat)
+
+/-- the binary64 number nearest to `x` (ties to even), as a rational -/
+def rnd64 (x : Rat) : Rat :=
+  if x = 0 then 0 else
+  let a := if x < 0 then -x else x
+  let e := log2Rat a.num.toNat a.den
+  let q := a * pow2 (52 - e)          -- in [2^52, 2^53)
+  let f := q.floor
+  let r := q - (f : Rat)
+  let m : Int := if r < 1/2 then f else if r > 1/2 then f + 1 else if f % 2 = 0 then f else f + 1
+  let y := (m : Rat) * pow2 (e - 52)
+  if x < 0 then -y else y
+
+/-- a box that `boxesMeasured = false` keeps in closed form has its area computed by GEOS as well;
+    in the bit-exact comparison every shape is a measured side -/
+def affinity64 {σ} (G : Geos σ) (g1 g2 : Geom) (tb fb : Rat) : Except Err Rat := affinityR rnd64 G g1 g2 tb fb
+
+/-- the coordinates `buffer_geometry` returns for a TimeStamp / TimeInterval / BoundingBox in the rounding
+    arithmetic (`none`: it raises, or the geometry is handed to GEOS) -/
+def bufferedCoordsR (rnd : Rat → Rat) (g : Geom) (tb fb : Rat) : Option (List Rat) :=
+  match bufferGeometryR rnd unitGeos g tb fb with
+  | .ok (.interval _ s e) => some [s, e]
+  | .ok (.box s l e h) => some [s, l, e, h]
+  | _ => none
+
 end SE.Affinity
